@@ -3,6 +3,8 @@
    decoding, ECDSA verification. *)
 From Isomdl Require Import Lib.Bytes Lib.Cbor Model.Cose Model.ReaderAuth Spec.CoseRfc Spec.ReaderAuthSpec
   Proofs.CoseProofs Proofs.ReaderAuthProofs.
+(* for the composition with C12 (below): the X.509 model, the Annex B rule, the composed proofs, C12's witnesses *)
+From Isomdl Require Import Model.X509 Spec.AnnexB Proofs.X509Proofs Proofs.TrustCompose.
 Open Scope N_scope.
 
 (* Valid only if: the x5chain is present and decodable, the chain validates against the registry,
@@ -18,23 +20,130 @@ Theorem C03_valid_only_if : forall (env : renv) (d : rdoc),
      v_check (e_issuer_verifier env) (iso_issuer_tbs (c_protected (rd_issuer_auth d)) payload) (c_sig (rd_issuer_auth d)) = true) /\
   data_bound d = true.
 Proof. exact issuer_valid_only_if. Qed.
+Print Assumptions C03_valid_only_if.
 
 (* a non-Valid status always comes with an error entry *)
 Theorem C03_nonvalid_has_error : forall (env : renv) (d : rdoc),
   o_issuer (validate_document env d) <> Valid -> o_errors (validate_document env d) <> [].
 Proof. exact issuer_nonvalid_has_error. Qed.
+Print Assumptions C03_nonvalid_has_error.
 
 (* an MSO or protected header altered after signing is checked against different bytes *)
 Theorem C03_alteration : forall p m p' m',
   bytes_ok p -> bytes_ok m -> bytes_ok p' -> bytes_ok m' ->
   iso_issuer_tbs p m = iso_issuer_tbs p' m' -> p = p' /\ m = m'.
 Proof. exact issuer_tbs_injective. Qed.
+Print Assumptions C03_alteration.
 
 (* the causes named by the property each yield a non-Valid status *)
 Theorem C03_missing_or_undecodable_x5chain : forall env d,
   e_x5 env <> X5Chain -> o_issuer (validate_document env d) = Unchecked /\ o_errors (validate_document env d) = [EParsing].
 Proof. intros env d H. unfold validate_document. destruct (e_x5 env); try contradiction; split; reflexivity. Qed.
+Print Assumptions C03_missing_or_undecodable_x5chain.
 
 Theorem C03_untrusted_certificate : forall env d,
   e_chain_valid env = false -> o_issuer (validate_document env d) <> Valid.
 Proof. intros env d H Hv. apply issuer_valid_only_if in Hv. destruct Hv as [_ [Hc _]]. congruence. Qed.
+Print Assumptions C03_untrusted_certificate.
+
+(* ---------- composition with C12: the chain verdict is the Annex B rule ----------
+   The reader model carries no x5chain value; [e_chain_valid env] stands for
+   `ValidationRuleset::Mdl.validate(&x5chain, &self.trust_anchor_registry).errors.is_empty()` (reader.rs).
+   Below that oracle is instantiated by C12's model of this very call, for ANY chain x, registry reg,
+   clock reading now and primitives ski_of_key / verifies (first hypothesis); x, reg, now are related to
+   env through that equation only.  The other hypotheses are exactly C12_sound's / C12_single_deviation's. *)
+
+(* Valid only if the document signer certificate (first of the chain) is within its validity, has the
+   B.3 profile, and is anchored — name, key identifier, signature, validity — in a registry entry of
+   purpose Iaca that has the B.1 profile and the same country / state; and C03_valid_only_if's conjuncts *)
+Theorem C03_valid_implies_annexb :
+  forall (ski_of_key : bytes -> bytes) (verifies : cert -> cert -> bool)
+         (now : Z) (x : x5chain) (reg : list anchor) (env : renv) (d : rdoc),
+    e_chain_valid env = match validate ski_of_key verifies Mdl now x reg with [] => true | _ :: _ => false end ->
+    clock_ok now -> inputs_wf Mdl (x_first x) reg ->
+    o_issuer (validate_document env d) = Valid ->
+    conformant ski_of_key verifies Mdl now (x_first x) reg /\
+    e_x5 env = X5Chain /\ e_leaf_key_ok env = true /\
+    alg_gate (e_issuer_verifier env) (alg_of_protected (c_protected (rd_issuer_auth d))) = true /\
+    (exists payload, c_payload (rd_issuer_auth d) = Some payload /\
+       v_parse (e_issuer_verifier env) (c_sig (rd_issuer_auth d)) = true /\
+       v_check (e_issuer_verifier env) (iso_issuer_tbs (c_protected (rd_issuer_auth d)) payload) (c_sig (rd_issuer_auth d)) = true) /\
+    data_bound d = true.
+Proof. exact issuer_valid_implies_conformant. Qed.
+Print Assumptions C03_valid_implies_annexb.
+
+(* ... and if the verifier is the one the first certificate's SubjectPublicKeyInfo determines, the MSO is
+   signed under the key of that conformant, anchored certificate *)
+Theorem C03_valid_signed_by_anchored_key :
+  forall (ski_of_key : bytes -> bytes) (verifies : cert -> cert -> bool) (verifier_of_spki : bytes -> verifier)
+         (now : Z) (x : x5chain) (reg : list anchor) (env : renv) (d : rdoc),
+    e_chain_valid env = match validate ski_of_key verifies Mdl now x reg with [] => true | _ :: _ => false end ->
+    e_issuer_verifier env = verifier_of_spki (c_spki (x_first x)) ->
+    clock_ok now -> inputs_wf Mdl (x_first x) reg ->
+    o_issuer (validate_document env d) = Valid ->
+    conformant ski_of_key verifies Mdl now (x_first x) reg /\
+    exists payload, c_payload (rd_issuer_auth d) = Some payload /\
+      v_check (verifier_of_spki (c_spki (x_first x)))
+              (iso_issuer_tbs (c_protected (rd_issuer_auth d)) payload) (c_sig (rd_issuer_auth d)) = true.
+Proof. exact issuer_valid_signed_by_anchored_key. Qed.
+Print Assumptions C03_valid_signed_by_anchored_key.
+
+(* every deviation of Spec/AnnexB.v (the hypothesis of C12_single_deviation) keeps the status from being Valid *)
+Theorem C03_untrusted_never_valid :
+  forall (ski_of_key : bytes -> bytes) (verifies : cert -> cert -> bool)
+         (now : Z) (x : x5chain) (reg : list anchor) (env : renv) (d : rdoc),
+    e_chain_valid env = match validate ski_of_key verifies Mdl now x reg with [] => true | _ :: _ => false end ->
+    clock_ok now -> deviation ski_of_key verifies Mdl now (x_first x) reg ->
+    o_issuer (validate_document env d) <> Valid.
+Proof. exact untrusted_never_valid. Qed.
+Print Assumptions C03_untrusted_never_valid.
+
+(* in particular: an empty registry; a registry whose entries (the right certificate included) are all
+   registered for reader authentication; no IACA entry under which the leaf's signature verifies;
+   IACA entries all expired *)
+Theorem C03_untrusted_named_causes :
+  forall (ski_of_key : bytes -> bytes) (verifies : cert -> cert -> bool)
+         (now : Z) (x : x5chain) (reg : list anchor) (env : renv) (d : rdoc),
+    e_chain_valid env = match validate ski_of_key verifies Mdl now x reg with [] => true | _ :: _ => false end ->
+    clock_ok now ->
+    (reg = [] \/
+     (forall a, In a reg -> a_purpose a = ReaderCa) \/
+     (forall a, In a reg -> a_purpose a = Iaca -> verifies (x_first x) (a_cert a) = false) \/
+     (forall a, In a reg -> a_purpose a = Iaca -> (c_not_after (a_cert a) < now)%Z)) ->
+    o_issuer (validate_document env d) <> Valid.
+Proof. exact untrusted_named_causes. Qed.
+Print Assumptions C03_untrusted_named_causes.
+
+(* ---------- non-vacuity (witnesses: Proofs/X509Proofs.v section H, Proofs/TrustCompose.v section 4) ----------
+   w_env now x reg: the reader's environment with the chain verdict computed by C12's model and the issuer
+   verifier determined by the first certificate's key; w_doc c: an mDL document (one disclosed item, SHA-256
+   digest in the MSO) whose issuerAuth is signed with c's key. *)
+
+(* the hypotheses of C03_valid_implies_annexb and C03_valid_signed_by_anchored_key hold together *)
+Example C03_ex_valid_implies_annexb_inhabited :
+  e_chain_valid (w_env w_now (w_chain w_ds) [w_anchor w_iaca]) =
+    match validate w_ski w_verifies Mdl w_now (w_chain w_ds) [w_anchor w_iaca] with [] => true | _ :: _ => false end /\
+  e_issuer_verifier (w_env w_now (w_chain w_ds) [w_anchor w_iaca]) = w_verifier_of_spki (c_spki (x_first (w_chain w_ds))) /\
+  clock_ok w_now /\ inputs_wf Mdl (x_first (w_chain w_ds)) [w_anchor w_iaca] /\
+  o_issuer (validate_document (w_env w_now (w_chain w_ds) [w_anchor w_iaca]) (w_doc w_ds)) = Valid.
+Proof. exact w_issuer_valid_inhabited. Qed.
+
+(* the hypotheses of C03_untrusted_never_valid / C03_untrusted_named_causes hold, cause by cause; the document
+   itself is authentic and signed by the document signer in every case *)
+Example C03_ex_untrusted_never_valid_inhabited :
+  (clock_ok w_now /\ deviation w_ski w_verifies Mdl w_now (x_first (w_chain w_ds)) [] /\
+   o_issuer (validate_document (w_env w_now (w_chain w_ds) []) (w_doc w_ds)) = Invalid) /\
+  (deviation w_ski w_verifies Mdl w_now (x_first (w_chain w_ds)) [w_reader_anchor w_iaca] /\
+   o_issuer (validate_document (w_env w_now (w_chain w_ds) [w_reader_anchor w_iaca]) (w_doc w_ds)) = Invalid) /\
+  (deviation w_ski w_verifies Mdl w_now (x_first (w_chain w_ds)) [w_anchor w_iaca_other_key] /\
+   o_issuer (validate_document (w_env w_now (w_chain w_ds) [w_anchor w_iaca_other_key]) (w_doc w_ds)) = Invalid) /\
+  (clock_ok w_later /\ deviation w_ski w_verifies Mdl w_later (x_first (w_chain w_ds)) [w_anchor w_iaca] /\
+   o_issuer (validate_document (w_env w_later (w_chain w_ds) [w_anchor w_iaca]) (w_doc w_ds)) = Invalid) /\
+  (clock_ok w_late /\ deviation w_ski w_verifies Mdl w_late (x_first (w_chain w_ds)) [w_anchor w_iaca] /\
+   o_issuer (validate_document (w_env w_late (w_chain w_ds) [w_anchor w_iaca]) (w_doc w_ds)) = Invalid).
+Proof. exact w_untrusted_inhabited. Qed.
+
+(* the oracle equation of the examples above holds for every chain, registry and clock *)
+Example C03_ex_oracle_instantiated : forall now x reg,
+  e_chain_valid (w_env now x reg) = match validate w_ski w_verifies Mdl now x reg with [] => true | _ :: _ => false end.
+Proof. exact w_env_oracle. Qed.
